@@ -268,21 +268,26 @@ func checkC05(c *Check) {
 
 	// ---- R5
 	writers := 0
+	for _, hs := range headerSites(P, R) {
+		if strings.EqualFold(hs.KeyConst, "set-cookie") {
+			writers++
+			c.Obl(hs.Fn == m.SetCookieWriter.Fn, "C05.R5", "writer/"+fnKey(hs.Fn), P.Pos(instrPos(hs.At)), "set-cookie is written by the single cookie writer",
+				"a second function ("+fnKey(hs.Fn)+") writes a set-cookie header")
+		}
+	}
+	// outside the handler's functions nobody builds response headers at all
 	for _, fn := range P.Funcs {
-		if strings.HasPrefix(pkgPathOf(fn), modPath+"/config/gen/go") {
+		if R.InHandler(fn) || strings.HasPrefix(pkgPathOf(fn), modPath+"/config/gen/go") {
 			continue
 		}
 		for _, b := range fn.Blocks {
 			for _, ins := range b.Instrs {
-				al, ok := ins.(*ssa.Alloc)
-				if !ok || typeID(al.Type()) != pkgEnvoyCore+".HeaderValue" {
-					continue
-				}
-				for _, v := range structFieldStores(al)["Key"] {
-					if s, isC := constString(v); isC && strings.EqualFold(s, "set-cookie") {
-						writers++
-						c.Obl(fn == m.SetCookieWriter.Fn, "C05.R5", "writer/"+fnKey(fn), P.Pos(instrPos(al)), "set-cookie is written by the single cookie writer",
-							"a second function ("+fnKey(fn)+") writes a set-cookie header")
+				if al, ok := ins.(*ssa.Alloc); ok && typeID(al.Type()) == pkgEnvoyCore+".HeaderValue" {
+					for _, v := range structFieldStores(al)["Key"] {
+						if s2, isC := constString(v); isC && strings.EqualFold(s2, "set-cookie") {
+							writers++
+							c.Fail("C05.R5", "writer/"+fnKey(fn), P.Pos(instrPos(al)), "a function outside the handler ("+fnKey(fn)+") writes a set-cookie header")
+						}
 					}
 				}
 			}
